@@ -6,6 +6,16 @@ checks of one run do not repeat the work; every check still rebuilds the engine 
 import os, json, hashlib, pickle, time
 import vlib, posgen
 
+def code_hash():
+    h = hashlib.sha256()
+    here = os.path.dirname(os.path.abspath(__file__))
+    for f in [__file__, os.path.join(here, '..', 'tools', 'posgen.py'), os.path.join(here, '..', 'tools', 'vlib.py')]:
+        h.update(open(f, 'rb').read())
+    cdir = os.path.join(here, '..', 'corpus')
+    for root, _, files in sorted(os.walk(cdir)):
+        for f in sorted(files): h.update(open(os.path.join(root, f), 'rb').read())
+    return h.hexdigest()[:12]
+
 def file_hash(p):
     h = hashlib.sha256(); h.update(open(p, 'rb').read()); return h.hexdigest()[:16]
 
@@ -43,7 +53,7 @@ def generate(ctx, oracle):
 
 def collect(ctx):
     """returns dict with positions, engine answers, model answers, judge verdicts, wf flags, stats"""
-    key = f'{file_hash(ctx.engine)}-{file_hash(ctx.model) if ctx.model_ok else "nomodel"}-{ctx.seed}-{ctx.tier}'
+    key = f'{file_hash(ctx.engine)}-{file_hash(ctx.model) if ctx.model_ok else "nomodel"}-{ctx.seed}-{ctx.tier}-{code_hash()}'
     cdir = os.path.join(vlib.BUILD, 'cache'); os.makedirs(cdir, exist_ok=True)
     cfile = os.path.join(cdir, f'chesscore-{key}.pkl')
     with vlib.Lock('chesscore'):
